@@ -19,9 +19,13 @@ def encode(obj):
 
 
 def decode(cache, records_per_chunk):
-    partially_decoded = json.loads(cache, object_hook=postprocess)
+    try:
+        partially_decoded = json.loads(cache, object_hook=postprocess)
 
-    return decode_hierarchy(partially_decoded, records_per_chunk=records_per_chunk)
+        return decode_hierarchy(partially_decoded, records_per_chunk=records_per_chunk)
+    except (ValueError, KeyError, TypeError, AttributeError) as e:
+        # truncated or otherwise unusable cache file: fall back to parsing the image
+        raise CachingError(f"invalid cache: {e}") from e
 
 
 def read_cache(mapper, path, records_per_chunk):
